@@ -41,6 +41,51 @@ CLAIMED = {
             "sizes is not proved; two recorded findings (zero-cost level, fall-through exit).",
             "Lean 4 proof (real analysis with Real.sqrt + loop invariants) + behaviour-derived generated obligation + differential correspondence",
             "DESIGN.md §4 C06"),
+    "C02": ("Lean 4 model of the six samplers as functions of the uniform u over Q with explicit u-cells. Proved for all inputs: draw "
+            "specifications (state k is returned exactly on its listed cells, cells disjoint and covering) for alias, binary search tree, "
+            "Huffman, inversion and adapted 1-d for arbitrary tables; total cell length = law of the tables; zero-probability states get no "
+            "cell of positive length; the Huffman construction as coded realises p for every p >= 0 (any heap insertion position); the "
+            "inversion sampler as a state machine (memo, storage cap, skip pointer) returns for u the same state after any history of "
+            "earlier draws as a fresh instance. Correspondence: exact dyadic vectors through both sides (tables and draws), a Riemann-exact "
+            "law of the implementation on the model's cells for factory-built chains, history and batch-entry-point streams.",
+            "Partial: alias and BST *construction* laws and the table slot counts are compared (certificate applied to the implementation's "
+            "tables), not proved; n-d adapted sampler has no Lean model; inversion history independence with skipped indices compared only; "
+            "three recorded findings.",
+            "Lean 4 proof (cell decompositions, Huffman induction, state-machine invariant) + differential correspondence",
+            "DESIGN.md §4 C02"),
+    "C07": ("Lean 4 theorems over Q for every number of paths and every sample: the path loop stores df*notional*payoff(path i) at row i for "
+            "exactly n rows (each path once); price = df*notional*mean; squared error = unbiased variance / n per component (the pre-fix "
+            "/(n*d) as witness); control variates: mean of Y - b(X - price_X) equals the raw mean when the controls' sample means equal "
+            "their prices, for any number of controls and any coefficients; with one control and the regression coefficient as coded "
+            "(incl. the fallback b*=0) the adjusted sample variance and reported error never exceed the raw ones. Correspondence: the real "
+            "standard engine driven by a scripted process with prescribed dyadic paths vs the model's exact rational statistics; textbook "
+            "oracles on the implementation.",
+            "Variance reduction with k >= 2 controls is only oracle-checked; numpy kernels compared, not proved.",
+            "Lean 4 proof (finite-sum algebra) + differential correspondence on scripted engine runs",
+            "DESIGN.md §4 C07"),
+    "C08": ("Lean 4 theorems about a token model of the generators (seeding re-enters the stream of that seed at position 0): for every "
+            "list of passes/levels, path counts and on-the-fly draw counts, a single-process run of the (fixed) engines consumes every "
+            "variate - pre-drawn row or drawn on the fly - at most once, a seeded run consumes only the seeded stream and is the same "
+            "function of the seed whatever the generators did before; negation witnesses for the pre-fix engines (pre-draw before seeding, "
+            "re-seeding every pass) and for the multi-process copied deques. Tie: every numpy.random/random draw, seed call, pre-drawn row "
+            "pop and path boundary of real pricing runs (both engines, direct/CTMC/coupled processes, both simulation modes, 1-4 processes) "
+            "is traced from the harness; consumption tokens are compared with the model and the oracles (no shared variate, no re-seed "
+            "after a draw, bit-equal seeded repeats) run on the trace.",
+            "OS scheduling, pid*time collisions and generator quality not modelled; multi-process only by witness + trace oracle; one "
+            "recorded finding (copied deques).",
+            "Lean 4 proof (interval/prefix-sum injectivity of token positions) + traced differential correspondence",
+            "DESIGN.md §4 C08"),
+    "C14": ("Lean 4 theorems over N/Z with exact roots: Cantor, Rosenberg-Strong (every dimension), Szudzik, Pepis-Kalmar pairing and "
+            "projection mutually inverse for all naturals; N<->Z folding; Z^d without the origin and [-L,R] enumerate every non-zero state "
+            "exactly once with pair inverting project; the coded PairingToZ1d object equals the pure function in increasing call order; the "
+            "mixed-radix lazy product yields every tuple exactly once for every size list; the states-manager skip-pointer enumeration "
+            "returns each in-grid non-origin state exactly once and then signals exhaustion (1-d unconditionally; boxes for monotone "
+            "pairings with the code's own bound). Correspondence: exact differential check through a Lean driver on all indices below a "
+            "bound plus directed indices around large perfect powers, unequal sizes, all interval shapes, real grids.",
+            "Hyperbolic pairing oracle-only; arbitrary call orders of PairingToZ1d and the Rosenberg-Strong frontier bound are proved false "
+            "by witnesses and recorded as findings; non-default domain boundaries not modelled.",
+            "Lean 4 proof (induction on dimension, shell arithmetic, state-machine invariants) + differential correspondence",
+            "DESIGN.md §4 C14"),
 }
 
 NOT_YET = "check not built yet in this session (planned: DESIGN.md §4); not claimed until its Lean model, theorems and correspondence exist"
